@@ -112,6 +112,7 @@ class Ctx:
         self.nontrivial = set()
         self.evaluations = 0
         self.digests = {}         # case id -> digest of canonical impl result (cross-hash-seed comparison)
+        self.case_of = {}         # case id -> the case (public keys only)
         self.exhaustive = False
         self.notes = []
         self.known = load_known_findings().get(prop, [])
@@ -130,6 +131,10 @@ class Ctx:
 
     def record(self, case_id, value):
         self.digests[case_id] = digest(value)
+        # remember which case produced the value (for the replay file of a cross-hash-seed disagreement)
+        cur = getattr(self, 'current_case', None)
+        if cur is not None and len(self.case_of) < 30000:
+            self.case_of[case_id] = cur
 
     def mine(self, i):
         """Case slicing between workers (only used when workers do not all run everything)."""
@@ -145,7 +150,8 @@ class Ctx:
                     return
         n_same = sum(1 for v in self.violations if v['no_input'] == bool(no_input))
         if n_same < (10 if no_input else 25):
-            self.violations.append({'kind': kind, 'detail': detail, 'no_input': bool(no_input)})
+            self.violations.append({'kind': kind, 'detail': detail, 'no_input': bool(no_input),
+                                    'ordinal': getattr(self, 'ordinal', 0), 'worker_index': self.worker_index, 'n_workers': self.n_workers})
         self.count('violations:' + kind)
 
 
@@ -172,6 +178,8 @@ def run_cases(ctx, mod, cases, chunk=400):
             reqs.extend(r)
         answers = ctx.lean.batch(reqs)
         for c, (a, b) in zip(buf, spans):
+            ctx.ordinal = getattr(ctx, 'ordinal', 0) + 1
+            ctx.current_case = {k: v for k, v in c.items() if not k.startswith('_')}
             try:
                 mod.judge(ctx, c, answers[a:b])
             except Exception as e:  # a harness bug must not masquerade as a verdict
@@ -179,8 +187,33 @@ def run_cases(ctx, mod, cases, chunk=400):
                 ctx.harness_errors.append({'case': c, 'error': traceback.format_exc()[-1500:]})
         buf.clear()
 
+    stop = getattr(ctx, 'stop_after', None)      # prefix replay: judge only the first `stop` cases of the run
+    n = 0
+    for c in corpus_cases(ctx):
+        if stop is not None and n >= stop:
+            break
+        n += 1
+        buf.append(c)
+    flush()
     for c in cases:
+        if stop is not None and n >= stop:
+            break
+        n += 1
         buf.append(c)
         if len(buf) >= chunk:
             flush()
     flush()
+
+
+def corpus_cases(ctx):
+    """minimised past failures (inputs on which a seeded change was caught) run first on every run: corpus/<property>.jsonl"""
+    if getattr(ctx, 'replaying', False) or os.environ.get('VERIF_NO_CORPUS'):
+        return
+    path = os.path.join(VERIF, 'corpus', '%s.jsonl' % ctx.prop)
+    if not os.path.exists(path):
+        return
+    for line in open(path, encoding='utf8'):
+        line = line.strip()
+        if line:
+            ctx.count('corpus')
+            yield json.loads(line)['case']
